@@ -42,3 +42,9 @@ Print Assumptions C15_nested_list_growth_bounded.
 Example C15_growth_example :
   exists v nm b, leaf_op true (VList (TUInt 1) [VInt 1; VInt 2; VInt 3]) (br_init [xfc; x07]) = Ok (v, nm, b).
 Proof. exact growth_example. Qed.
+
+Theorem C15_nested_dict_growth_bounded : forall is_slice fs kvs r v nm b,
+  leaf_op is_slice (VDict fs kvs) r = Ok (v, nm, b) ->
+  exists kvs', v = VDict fs kvs' /\ (length kvs' <= S (length kvs))%nat.
+Proof. exact leaf_op_dict_growth. Qed.
+Print Assumptions C15_nested_dict_growth_bounded.
